@@ -50,8 +50,13 @@ def msgpack_fixed():
         # a std::tuple member loaded with the Skip policies: truncation inside a component must still be reported
         tuple_doc = [0x82, 0xa1, 0x74, 0x93, 1, 0xa5] + S("hello") + [0xcb, 0x3f, 0xf8, 0, 0, 0, 0, 0, 0, 0xa1, 0x6e, 5]
         tuple_root = {"k": "obj", "ops": [{"op": "req", "ks": S("t"), "t": "tuple_i32_str_f64"}, {"op": "req", "ks": S("n"), "t": "i32"}]}
+        tuple_last_doc = [0x82, 0xa1, 0x6e, 5, 0xa1, 0x74, 0x93, 1, 0xa5] + S("hello") + [0xcb, 0x3f, 0xf8, 0, 0, 0, 0, 0, 0]
+        tuple_last_root = {"k": "obj", "ops": [{"op": "req", "ks": S("n"), "t": "i32"}, {"op": "req", "ks": S("t"), "t": "tuple_i32_str_f64"}]}
+        tuple_leaf_doc = [0x93, 1, 0xa5] + S("hello") + [0xcb, 0x3f, 0xf8, 0, 0, 0, 0, 0, 0]
         for polname, pol in (("skip", {"mm": "skip", "ov": "skip"}), ("throw", {"mm": "throw", "ov": "throw"})):
             out.append({"id": "tuple-%s-%s" % (polname, sfx), "doc": tuple_doc, "root": tuple_root, "pol": pol, "stream": stream})
+            out.append({"id": "tuple-last-%s-%s" % (polname, sfx), "doc": tuple_last_doc, "root": tuple_last_root, "pol": pol, "stream": stream})
+            out.append({"id": "tuple-root-%s-%s" % (polname, sfx), "doc": tuple_leaf_doc, "root": {"k": "leaf", "t": "tuple_i32_str_f64"}, "pol": pol, "stream": stream})
         # a std::unique_ptr member whose pointee is created during the load (must not be orphaned when the load fails midway)
         uptr_doc = [0x82, 0xa1, 0x70, 0xce, 0, 1, 0, 0, 0xa1, 0x6e, 5]
         uptr_root = {"k": "obj", "ops": [{"op": "req", "ks": S("p"), "t": "uptr_i32"}, {"op": "req", "ks": S("n"), "t": "i32"}]}
